@@ -95,9 +95,13 @@ class CategoricalTensorMapper(TensorMapper):
         *,
         device: torch.device | None = None,
     ) -> Tensor:
+        # NOTE: Merge on generic object keys: pandas refuses to merge, e.g.,
+        # an all-missing object column against an integer category index.
+        categories = self.categories.set_axis(
+            self.categories.index.astype(object))
         index = pd.merge(
-            ser.rename('data'),
-            self.categories,
+            ser.rename('data').astype(object),
+            categories,
             how='left',
             left_on='data',
             right_index=True,
@@ -136,11 +140,13 @@ class MultiCategoricalTensorMapper(TensorMapper):
         super().__init__()
         self.categories = categories
         self.sep = sep
+        # NOTE: The index holds the categories plus the missing marker `-1`.
+        # It is of dtype object even if there is no category at all, so that
+        # `pd.merge` in `forward` accepts any token.
         self.index = pd.Series(
-            index=categories,
-            data=pd.RangeIndex(0, len(categories)),
+            index=pd.Index(list(categories) + [-1], dtype=object),
+            data=list(range(len(categories))) + [-1],
         )
-        self.index = pd.concat((self.index, (pd.Series([-1], index=[-1]))))
 
     @staticmethod
     def split_by_sep(row: str | Iterable | None, sep: None | str) -> set[Any]:
